@@ -204,6 +204,7 @@ pub mod dom {
     pub static mut NCH: [u8; MAXN] = [0; MAXN];
     pub static mut CH: [[u8; MAXC]; MAXN] = [[0; MAXC]; MAXN];
     pub static mut NNODES: usize = 0;
+    pub static mut IDCODE: [u16; MAXN] = [0; MAXN];          // 0 = no id attribute; otherwise a code of the id string
     pub const NAMES: [&str; 8] = ["mi", "none", "mprescripts", "mmultiscripts", "mtext", "mrow", "mn", "mo"];
     #[derive(Clone, Copy, PartialEq, Eq, Debug)] pub struct Element<'a> { pub id: u8, pub p: PhantomData<&'a ()> }
     #[derive(Clone, Copy, PartialEq, Eq, Debug)] pub enum ChildOfElement<'a> { Element(Element<'a>) }
@@ -215,6 +216,9 @@ pub mod dom {
         pub fn with_capacity(_n: usize) -> Self { Self::new() }
         pub fn push(&mut self, t: T) { assert!(self.len < MAXC + 2, "model vector overflow"); unsafe { (self.items.as_mut_ptr() as *mut T).add(self.len).write(t); } self.len += 1; }
     }
+    pub struct KIter<T: Copy> { v: KVec<T>, i: usize }
+    impl<T: Copy> Iterator for KIter<T> { type Item = T; fn next(&mut self) -> Option<T> { if self.i < self.v.len { let t = self.v[self.i]; self.i += 1; Some(t) } else { None } } }
+    impl<T: Copy> IntoIterator for KVec<T> { type Item = T; type IntoIter = KIter<T>; fn into_iter(self) -> KIter<T> { KIter { v: self, i: 0 } } }
     impl<T: Copy> core::ops::Deref for KVec<T> { type Target = [T]; fn deref(&self) -> &[T] { unsafe { core::slice::from_raw_parts(self.items.as_ptr() as *const T, self.len) } } }
     pub fn new_node(kind: u8) -> Element<'static> { unsafe { let id = NNODES; assert!(id < MAXN, "model DOM full"); NNODES += 1; KIND[id] = kind; NCH[id] = 0; Element { id: id as u8, p: PhantomData } } }
     impl<'a> Element<'a> {
@@ -228,7 +232,11 @@ pub mod dom {
         }
         pub fn append_child_id(&self, c: u8) { unsafe { let n = NCH[self.id as usize] as usize; CH[self.id as usize][n] = c; NCH[self.id as usize] = (n + 1) as u8; } }
         pub fn document(&self) -> Document<'a> { Document(PhantomData) }
+        /// only the "id" attribute is modelled; its value is kept as a code: (length << 8) | last byte  (injective on the ids the harnesses use)
+        pub fn attribute(&self, nm: &str) -> Option<u16> { if nm.len() == 2 { let c = unsafe { IDCODE[self.id as usize] }; if c == 0 { None } else { Some(c) } } else { None } }
+        pub fn set_attribute_value(&self, nm: &str, value: &str) { if nm.len() == 2 { unsafe { IDCODE[self.id as usize] = id_code(value); } } }
     }
+    pub fn id_code(value: &str) -> u16 { ((value.len() as u16) << 8) | (value.as_bytes()[value.len() - 1] as u16) }
     pub fn name<'a>(e: &Element<'a>) -> &'static str { NAMES[unsafe { KIND[e.id as usize] } as usize] }
     pub fn as_element<'a>(c: ChildOfElement<'a>) -> Element<'a> { let ChildOfElement::Element(e) = c; e }
     pub fn create_mathml_element<'a>(_doc: &Document<'a>, nm: &str) -> Element<'a> {
@@ -238,4 +246,25 @@ pub mod dom {
 }
 use dom::{Element, ChildOfElement, Document, name, as_element, create_mathml_element};
 #[allow(unused_imports)] use dom::KVec as Vec;
+'''
+
+
+# generic stub for the blanket `impl<T: Display> ToString for T` (integer / float formatting does not get through CBMC in reasonable time):
+# strings are copied, a usize n < 26 is rendered as the single letter 'a'+n (injective on the counts the harnesses reach)
+TOSTRING_STUB = r'''
+#[cfg(kani)]
+fn to_string_stub<T: core::fmt::Display + ?Sized>(v: &T) -> String {
+    let tn = core::any::type_name::<T>();
+    if tn.len() == 5 {   // "usize"
+        let x: usize = unsafe { *(v as *const T as *const usize) };
+        assert!(x < 26, "count outside the stub's range");
+        let mut s = String::new();
+        s.push((b'a' + x as u8) as char);
+        s
+    } else {
+        let n = core::mem::size_of_val(v);
+        let b = unsafe { core::slice::from_raw_parts(v as *const T as *const u8, n) };
+        String::from(unsafe { core::str::from_utf8_unchecked(b) })
+    }
+}
 '''
